@@ -1,42 +1,21 @@
 package main
 
 import (
+	"encoding/json"
 	"fmt"
+	"os"
 
 	"github.com/jsightapi/jsight-schema-core/notations/jschema"
 )
 
-func try(root, typ string) {
-	s := jschema.New("root", root)
-	if typ != "" {
-		if err := s.AddType("@t", jschema.New("@t", typ)); err != nil {
-			fmt.Println("addtype", err)
-		}
-	}
-	err := s.Check()
-	e := "nil"
-	if err != nil {
-		e = err.Error()
-		if len(e) > 90 {
-			e = e[:90]
-		}
-	}
-	fmt.Printf("%-40q TYPE %-40q -> %s\n", root, typ, e)
-}
-
 func main() {
-	try(`1 // {type: "@t"}`, `1.5 // {enum: [1.5, 1]}`)
-	try(`1 // {type: "@t"}`, `1 // {enum: [1.5, 1]}`)
-	try(`1.5 // {type: "@t"}`, `1 // {enum: [1.5, 1]}`)
-	try(`"a" // {type: "@t"}`, `2 // {enum: [2, "a"]}`)
-	try(`2 // {type: "@t"}`, `"a" // {enum: [2, "a"]}`)
-	try(`null // {type: "@t"}`, `"a" // {enum: [null, "a"]}`)
-	try(`null // {type: "@t"}`, `5 // {type: "integer", nullable: true}`)
-	try(`null // {type: "@t"}`, `5 // {nullable: true}`)
-	try(`{"k": null // {type: "@t"}
-}`, `5 // {nullable: true}`)
-	try(`{"k": @t
-}`, `5 // {nullable: true}`)
-	try(`null // {type: "integer", nullable: true}`, ``)
-	try(`@t`, `1.5 // {enum: [1.5, 1]}`)
+	for _, t := range os.Args[1:] {
+		s := jschema.New("root", t)
+		fmt.Printf("%q check=%v\n", t, s.Check())
+		ex, err := s.Example()
+		fmt.Printf("  example=%q %v\n", ex, err)
+		a, err := s.GetAST()
+		b, _ := json.Marshal(a)
+		fmt.Printf("  ast=%s %v\n", b, err)
+	}
 }
